@@ -315,7 +315,7 @@ PENDING = ["C01", "C02", "C03", "C04", "C05", "C06", "C07", "C08", "C09", "C10",
            "C17", "C19", "C20"]
 
 
-FIXES = [f['commit'] for f in json.load(open(os.path.join(VERIF, 'known_findings.json')))['findings'] if f['status'] == 'fixed']
+FIXES = list(dict.fromkeys(f['commit'] for f in json.load(open(os.path.join(VERIF, 'known_findings.json')))['findings'] if f['status'] == 'fixed'))
 
 
 def main():
